@@ -39,11 +39,11 @@ def check(pid, tier, seed, replay=None):
                 s = tlc(mdir, "MCHlog", consts + "SPECIFICATION Spec\nCHECK_DEADLOCK FALSE\nINVARIANT EmitDone\n", workers=1, simulate=600 if thorough else 150, depth=100, seed=seed,
                         timeout=600, cfg_name="hls_%s.cfg" % name)
                 for i, x in enumerate(sorted({x[2] for x in s.prints("SCHED")})):
-                    scripts.append({"kind": "iso", "id": "sim-%s-%d" % (name, i), "chains": chains, "steps": json.loads(x)})
+                    scripts.append({"kind": "iso", "id": "sim-%s-%d" % (name, i), "chains": chains, "steps": json.loads(x), "bigbase": i % 2 == 1})
             for i in range(1500 if thorough else 300):
                 R = rng.randint(2, 5)
                 chains = [[rng.choice(KINDS) for _ in range(rng.randint(0, 5))] for _ in range(R)]
-                scripts.append({"kind": "iso", "id": "free-%d" % i, "chains": chains, "steps": [], "free": True, "seed": rng.randrange(1 << 30)})
+                scripts.append({"kind": "iso", "id": "free-%d" % i, "chains": chains, "steps": [], "free": True, "seed": rng.randrange(1 << 30), "bigbase": i % 3 == 0})
             rp = tlc(mdir, "RespProxy", "CONSTANTS MaxOps = %d\n Caps = {\"basic\", \"flusher\", \"full\"}\nSPECIFICATION Spec\nCHECK_DEADLOCK FALSE\nINVARIANT EmitAll\n" % (5 if thorough else 4),
                      workers=4, timeout=900)
             stats["states"] += rp.distinct
